@@ -424,10 +424,10 @@ impl TryFrom<Option<&SubtypeElements>> for PerVisibleRangeConstraints {
                 matches!(subtype, ASN1Type::Integer(_)),
                 subtype.constraints(),
             ),
-            x => {
-                eprintln!("{x:?}");
-                unreachable!()
-            }
+            x => Err(GrammarError::new(
+                &format!("Unsupported constraint element in a PER-visible constraint: {x:?}"),
+                GrammarErrorType::UnpackingError,
+            )),
         }
     }
 }
